@@ -157,12 +157,17 @@ fn short_digest(v: &Value) -> String {
 pub fn serve(sc: &Scenario, ids: &[String], r: &Req) -> SvcRes {
     let f = r.function.as_str();
     let args = Value::Array(r.args.clone());
+    // results embed their arguments (rule U); arguments that are themselves results would make values grow
+    // geometrically through nested folds, so big argument lists are embedded by digest (still unique per instance)
+    let big = args.to_string().len() > 600;
+    let embed: Value = if big { json!({"h": short_digest(&args), "n": r.args.len()}) } else { args.clone() };
+    let embed_vec: Vec<Value> = if big { vec![embed.clone()] } else { r.args.clone() };
     if let Some(fault) = sc.svc_faults.get(f) {
         match fault {
             SvcFault::Error(c) => return (*c, json!(format!("err {f} {}", short_digest(&args))).to_string()),
             SvcFault::Garbage => return (0, format!("<<not json {f}>>")),
             SvcFault::Oversize(n) => {
-                return (0, json!({"f": f, "a": r.args, "pad": "x".repeat(*n as usize)}).to_string());
+                return (0, json!({"f": f, "a": embed_vec, "pad": "x".repeat(*n as usize)}).to_string());
             }
         }
     }
@@ -184,9 +189,9 @@ pub fn serve(sc: &Scenario, ids: &[String], r: &Req) -> SvcRes {
         let sfx = if r.args.is_empty() { String::new() } else { format!("-{}", short_digest(&args)) };
         Value::Array((0..n).map(|i| json!(format!("{f}-{i}{sfx}"))).collect())
     } else if f.starts_with("obj") {
-        json!({"a": {"b": num}, "c": [10, 20], "f": f, "x": r.args})
+        json!({"a": {"b": num}, "c": [10, 20], "f": f, "x": embed_vec})
     } else {
-        json!({"f": f, "a": r.args})
+        json!({"f": f, "a": embed_vec})
     };
     (0, v.to_string())
 }
